@@ -60,6 +60,10 @@ func frag(kind string) any {
 	switch kind {
 	case "unknowntype":
 		return m("type", "strng")
+	case "unknowntypefmt":
+		return m("type", "strng", "format", "date-time")
+	case "unknowntypekw":
+		return m("type", "intger", "minimum", 1, "maximum", 5, "default", 2)
 	case "missingdef":
 		return m("$ref", "#/$defs/Nope")
 	case "missingfile":
